@@ -4,6 +4,7 @@ import CosetProofs.Ties.Budget.Key
 import CosetProofs.Ties.Compare.Common
 import CosetProofs.Ties.Compare.Iana
 import CosetProofs.Ties.Compare.Key
+import CosetProofs.Ties.IanaTables
 namespace Coset.Props.C10
 
 /-! ### ties to the source text (regenerated on every run, compared in the kernel with the transcribed tree) -/
@@ -21,5 +22,10 @@ theorem tie_compare_key : Coset.Ties.compareCovered "key" Coset.Gen.decisionBudg
 #print axioms tie_compare_common
 #print axioms tie_compare_iana
 #print axioms tie_compare_key
+
+/-- the registry tables the streams of this property build values from (by name) are the IANA assignments. -/
+theorem tie_iana_tables : Coset.Ties.IanaTablesOk := Coset.Ties.iana_tables
+
+#print axioms tie_iana_tables
 
 end Coset.Props.C10
